@@ -1,5 +1,5 @@
 CONSTANTS
-  MaxVer = 3
+  MaxVer = 4
   NQ = 0
   QKinds <- KNone
   Orders <- OAll
@@ -8,10 +8,10 @@ CONSTANTS
   Fine = FALSE
   AtomicResolve = FALSE
   Coarse = FALSE
-  Keep <- 1
+  Keep = 1
   StoreDirect = FALSE
   MetaDirect = FALSE
-  MaxLen = 40
+  MaxLen = 60
 INIT Init
 NEXT Next
 VIEW StateView
